@@ -1263,3 +1263,66 @@ def r07_18_optional_fraction_gives_back_the_separator(ctx: Ctx) -> RuleResult:
         else:
             rr.fail(where, "the fraction's parse action keeps the matched separator when no digit follows: a zero fraction is written without its separator, so a pattern whose next literal is `.` or `,` (`ss;FFF, m` -> '00, 0') cannot parse the text it produced", ctx.loc(f))
     return rr
+
+
+@rule("C07")
+def r07_19_unparsed_fields_come_from_the_template(ctx: Ctx) -> RuleResult:
+    """A pattern need not contain every field: what the text does not give comes from the template value.  The parse buckets keep
+    one attribute per field, filled only when the pattern has that field.  In the hour calculation the AM/PM attribute may
+    therefore be read only on a path whose condition names the AM_PM field flag - `hh:mm` with a 15:00 template must give the
+    afternoon - and in the year calculation everything added to the parsed year OF ERA is itself a year of era (the century of
+    the template's `year_of_era`, not of its absolute `year`, which is negative before the common era)."""
+    from ..kit import inline_locals
+
+    rr = RuleResult("R07.19", "parse buckets read a field attribute only under a test naming that field's flag, and year-of-era arithmetic stays in years of era", min_instances=2)
+    M = ctx.M
+    bucket = next((c for c in M.all_classes() if c.name == "_LocalTimeParseBucket"), None)
+    f = next((g for g in bucket.all_defs if g.name.endswith("determine_hour")), None) if bucket else None
+    if f is None:
+        raise AnalysisError("_LocalTimeParseBucket.__determine_hour not found")
+    rr.inst()
+    bad = None
+    parents = {}
+    for n in ast.walk(f.node):
+        for ch in ast.iter_child_nodes(n):
+            parents[id(ch)] = n
+    for n in own_nodes(f.node):
+        if isinstance(n, ast.Attribute) and n.attr == "_am_pm" and isinstance(n.ctx, ast.Load):
+            # the chain of enclosing If tests
+            tests = []
+            x = n
+            while id(x) in parents:
+                p = parents[id(x)]
+                if isinstance(p, ast.If) and x in p.body:
+                    tests.append(unparse(p.test))
+                if isinstance(p, ast.IfExp) and x is p.body:
+                    tests.append(unparse(p.test))
+                x = p
+            if not any("AM_PM" in t for t in tests):
+                bad = bad or n
+    if bad is None:
+        rr.ok({"fn": f.qual})
+    else:
+        rr.fail(f.qual, f"`{unparse(parents[id(bad)])[:80]}` reads the parsed AM/PM designator on a path that is also taken when the pattern has no `t` field: the half of the day then is not taken from the template value (`hh:mm:ss` with a 15:00 template parses 04:30 as 04:30, the formatter wrote it for 16:30)", ctx.loc(f, bad))
+    # year-of-era arithmetic
+    n_sites = 0
+    for g in sorted(set(M.func_of_node.values()), key=lambda x: x.qual):
+        if isinstance(g.node, ast.Lambda) or "/text/" not in g.mod.rel:
+            continue
+        for n in own_nodes(g.node):
+            tgt = n.target if isinstance(n, (ast.AugAssign, ast.AnnAssign)) else (n.targets[0] if isinstance(n, ast.Assign) and len(n.targets) == 1 else None)
+            if tgt is None or not (isinstance(tgt, ast.Attribute) and tgt.attr.endswith("year_of_era")) or getattr(n, "value", None) is None:
+                continue
+            if not isinstance(n, ast.AugAssign):
+                continue
+            n_sites += 1
+            rr.inst()
+            v = inline_locals(g.node, n.value)
+            absyear = [x for x in ast.walk(v) if isinstance(x, ast.Attribute) and x.attr == "year"]
+            if absyear:
+                rr.fail(g.qual, f"`{unparse(n)[:70]}` adds a quantity computed from `{unparse(absyear[0])}` (an absolute year) to a year of era: for a template before the common era the century is negative and the two-digit year lands in the wrong era", ctx.loc(g, n))
+            else:
+                rr.ok({"fn": g.qual, "update": unparse(n)[:60]})
+    if n_sites == 0:
+        raise AnalysisError("no in-place update of a year-of-era attribute found in the text layer (the two-digit-year century is expected)")
+    return rr
